@@ -134,7 +134,7 @@ def cases(tier, seed):
     rng = np.random.default_rng(19000 + seed)
     out = []
 
-    def mk(algo, obs, lamb, gamma, ops, d=None, arms=None, hidden=None):
+    def mk(algo, obs, lamb, gamma, ops, d=None, arms=None, hidden=None, int_hp=False):
         c = {
             "algo": algo,
             "obs": obs,
@@ -146,6 +146,8 @@ def cases(tier, seed):
             "seed": int(rng.integers(1 << 30)),
             "ops": ops,
         }
+        if int_hp:
+            c["int_hp"] = True  # lambda / gamma passed as python ints (the constructor allows both)
         out.append(c)
 
     # hostile corners first: every op kind directly after a short and after no history, every lambda, both algorithms
@@ -166,6 +168,7 @@ def cases(tier, seed):
         for obs in ("image", "dict"):
             mk(algo, obs, 1.0, 1.0, ["act:5:0.3", "learn", "act:5:0.0", "mut:arch", "act:4:0.0", "clone", "act:3:0.0"])
             mk(algo, obs, 2.0, 0.5, ["act:4:0.0", "mut:act", "act:4:0.3", "ckpt:load", "act:3:0.0"])
+        mk(algo, "vector", 2.0, 2.0, ["act:6:0.3", "learn", "act:6:0.0", "clone", "act:3:0.0"], int_hp=True)
         # drift: one long uninterrupted recursion per algorithm
         mk(algo, "vector", 1.0, 1.0, ["act:100:0.2", "learn", "act:100:0.0"], d=8, arms=5)
 
@@ -570,8 +573,8 @@ def _make_agent(case, seed):
         asp,
         hp_config=zoo.tiny_hp_config(case["algo"]),
         net_config=net_config,
-        lamb=case["lamb"],
-        gamma=case["gamma"],
+        lamb=int(case["lamb"]) if case.get("int_hp") else case["lamb"],
+        gamma=int(case["gamma"]) if case.get("int_hp") else case["gamma"],
         batch_size=8,
     )
 
